@@ -123,9 +123,44 @@ def run(chk):
                 chk.ob("C05-D1.support", "diffSupport<%s>" % r, "order %d, points 0..%d" % (order, POINTS[-1]), not bad, DS[r].where, "; ".join(bad[:2]) if bad else "%d exact evaluations agree" % ncase)
     chk.floor("C05-D1.support", nsup, 300, "exact derivative evaluations")
 
-    # not analysable: high order bases contain loops
-    for nm in ("evalPWPower", "diffPWPower"):
-        chk.note("C05-D1.pw", HPP, "%s contains loops (product form of the Lagrange basis): not a closed form, not analysed" % nm)
+    # high-order bases: product form of the Lagrange basis with loops and stateful local lambdas.  Both routines fold for a concrete
+    # (order, point) and symbolic x, so the identity d/dx evalPWPower == diffPWPower is decided as a polynomial identity per case.
+    chk.rule("C05-D1.power", "for every instantiated local rule, orders {unbounded, 4, 5, 6} and point classes up to depth %d (more than 8 ancestors), d/dx evalPWPower<rule>(order, point, x) "
+                             "== diffPWPower<rule>(order, point, x) as polynomials in x (both routines folded, loops and ancestor-walk lambdas executed on concrete indexes)" % pick(13, 17))
+    from tsg.peval import ArrayPEval
+    EP, DP = insts(db, "evalPWPower"), insts(db, "diffPWPower")
+    if not EP or not DP:
+        raise AnalysisBroken("no instantiation of evalPWPower / diffPWPower")
+    deep = [q for k in range(4, pick(13, 17) + 1) for q in (2 ** k + 1, 2 ** k + 2 ** (k - 1), 2 ** (k + 1) - 2)]
+    PW_POINTS = sorted(set(list(range(3, pick(26, 70))) + deep))
+    npow = 0
+    for r in sorted(set(EP) & set(DP)):
+        if r == "pwc":
+            continue
+        chk.saw(EP[r])
+        chk.saw(DP[r])
+        for order in (-1, 4, 5, 6):
+            bad = []
+            n = 0
+            maxdeg = 0
+            for p in PW_POINTS:
+                try:
+                    e = ArrayPEval(db).call(EP[r], [sympy.Integer(order), sympy.Integer(p), X])
+                    d = ArrayPEval(db).call(DP[r], [sympy.Integer(order), sympy.Integer(p), X])
+                except NotClosedForm as ex:
+                    bad.append("point %d: not folded (%s)" % (p, ex))
+                    continue
+                n += 1
+                ee = sympy.expand(e)
+                maxdeg = max(maxdeg, sympy.degree(ee, X) if ee.has(X) else 0)
+                if sympy.expand(sympy.diff(ee, X) - d) != 0:
+                    bad.append("point %d: d/dx of the value has degree %s, the derivative routine returns degree %s (difference %s)" % (
+                        p, sympy.degree(sympy.diff(ee, X), X), sympy.degree(sympy.expand(d), X) if sympy.expand(d).has(X) else 0,
+                        str(sympy.expand(sympy.diff(ee, X) - d))[:80]))
+            npow += n
+            chk.ob("C05-D1.power", "diffPWPower<%s>" % r, "order %s, %d point classes up to %d" % ("unbounded" if order < 0 else order, len(PW_POINTS), PW_POINTS[-1]),
+                   not bad, DP[r].where, "; ".join(bad[:2]) if bad else "%d polynomial identities hold (degree up to %d)" % (n, maxdeg))
+    chk.floor("C05-D1.power", npow, 4 * 4 * 40, "folded value/derivative pairs of the high-order basis")
 
     # ------------------------------------------------------------------ D2
     nargs = 0
